@@ -18,6 +18,18 @@ class KGChar(str):
     pass
 
 
+def _compiled_vector_operand(x, scan):
+    """Operand check for compiled reduce/scan.
+
+    The ufunc shortcuts agree with the Over / Scan-Over adverbs only for non-empty
+    arrays (and, for scans, only for vectors: cumsum/cumprod flatten). Anything else
+    raises, which makes the caller fall back to the interpreter.
+    """
+    if not isinstance(x, np.ndarray) or x.size == 0 or (scan and x.ndim != 1):
+        raise ValueError("operand not covered by the compiled reduce/scan")
+    return x
+
+
 class NumpyBackendProvider(BackendProvider):
     """NumPy-based backend provider."""
 
@@ -110,7 +122,7 @@ class NumpyBackendProvider(BackendProvider):
 
         param_names = list(self._collect_params(ir))
         fn_source = f"def _expr({', '.join(param_names)}): return {source}"
-        ns = {'np': np}
+        ns = {'np': np, '_vec': _compiled_vector_operand}
         try:
             exec(fn_source, ns)
         except Exception:
@@ -163,7 +175,7 @@ class NumpyBackendProvider(BackendProvider):
             method = {'+': 'np.add.reduce', '*': 'np.multiply.reduce', '|': 'np.maximum.reduce', '&': 'np.minimum.reduce'}.get(op)
             if method is None:
                 return None
-            return f'{method}({arg_src})'
+            return f'{method}(_vec({arg_src}, 0))'
 
         if node_type == 'scan':
             op, arg = ir[1], ir[2]
@@ -173,7 +185,7 @@ class NumpyBackendProvider(BackendProvider):
             method = {'+': 'np.cumsum', '*': 'np.cumprod'}.get(op)
             if method is None:
                 return None  # |\ and &\ not supported in numpy
-            return f'{method}({arg_src})'
+            return f'{method}(_vec({arg_src}, 1))'
 
         return None
 
